@@ -53,6 +53,21 @@ def streams : List (String × Stream) := ([] : List (String × Stream))
   |>.cons ("engine_abort", EngineStream.streamAbort)
   |>.cons ("bulk", BulkStream.stream)
   |>.cons ("cypher14", Cypher14.stream)
+import Nervus.Driver.ExtId
+import Nervus.Driver.Capi
+import Nervus.Driver.Capix
+import Nervus.Driver.Crash
+open Nervus.Driver
+
+/-- stream registry: one line per stream (kept one-per-line so that merges are unions) -/
+def streams : List (String × Stream) := [
+  ("okey", OKeyStream.stream),
+  ("extid", ExtIdStream.stream),
+  ("capi", CapiStream.stream),
+  ("capiryw", CapiStream.streamRyw),
+  ("capix", CapixStream.stream),
+  ("crash", CrashStream.stream)
+]
 
 def main (args : List String) : IO UInt32 := do
   match args with
